@@ -216,8 +216,8 @@ pub fn c01() -> CrashCheck {
         ccfg: cc_c01,
         rule: "hist tapes (mixed Durability::None/Immediate, 1PC/2PC/quick-repair, savepoint and compaction steps, reopen, growth and shrink; 6 page sizes, small regions, cache 0..1GiB) are executed on a recording backend; crash instants = state-changing backend calls after creation (all of them when the budget allows, else a stratified sample that always contains set_len neighbours and the last write before each sync); per instant: nothing/everything kept, in-flight op dropped/only kept, header-only and its converse, set_len dropped, single drops/keeps, random subsets with p in {0.1,0.5,0.9}, ALL 2^W subsets when W <= 4 (thorough: 8), tears of the header write at the god byte / slot / transaction id / checksum boundaries and random tears of page writes; each image must reopen and equal, over all tables and persistent savepoints, exactly one commit point S_j with d <= j <= r; a sample of recoveries is crashed again inside the recovery run (nested) under the same window. Non-trivial: a crash state with >=1 pending write kept and >=1 dropped or torn, taken outside the idle phase; distinct by image hash.",
         assumptions: &["any commit point j in [d, r] is accepted, including non-durable ones (that is what the statement says)"],
-        quick: (150, 90),
-        thorough: (2500, 140),
+        quick: (200, 90),
+        thorough: (6000, 140),
         probes: &[],
     }
 }
@@ -262,8 +262,8 @@ pub fn c11() -> CrashCheck {
         ccfg: cc_c11,
         rule: "hist tapes with frequent quick-repair commits, clean reopen, check_integrity and aborts are executed on a recording backend and stopped in every way: clean close + open inside the history (contents and persistent savepoints must be unchanged, check_integrity must return Ok(true) whenever it is callable), and a crash at sampled/enumerated storage operations (same crash model as C01); after every crash recovery: contents equal one commit point in the window, check_integrity() == Ok(true) twice with unchanged contents, then a continuation workload writes to every table and creates a new one, commits, everything is re-read and check_integrity() must again be Ok(true) (a page wrongly considered free would be handed out and corrupt a table; a stale allocator snapshot shows up as Ok(false)). Non-trivial: crash state with >=1 pending write kept and >=1 dropped or torn outside the idle phase; distinct by image hash.",
         assumptions: &["allocation state is observed through check_integrity() (which rebuilds it from the roots and compares) and through safe reuse under the continuation workload; exact page accounting is C06", "Ok(false) after a caught-panic leak is documented and not generated"],
-        quick: (100, 80),
-        thorough: (1500, 120),
+        quick: (160, 80),
+        thorough: (4000, 120),
         probes: &[probe_c11_abort_after_growth],
     }
 }
